@@ -436,8 +436,14 @@ var cidNames = []string{"a", "b", "c"}
 // drive really runs the tracker to the operation-table state described by
 // letters. It must be called inside a bubble. It returns an error when the
 // harness could not reach the intended state (a broken check, not a verdict).
+// failAs, when set, is the error a failing daemon call surfaces as
+// (context.Canceled is what ipfshttp.Connector returns when its own timeout
+// gives up on a call: a failure like any other for the tracker).
+var failAs error
+
 func drive(letters []letter) (*env, error) {
 	e := &env{ctx: context.Background(), sh: clus.NewShared(nil), model: clus.NewIPFS(), label: map[string]int{}}
+	e.model.FailErr = failAs
 	parked, queued := 0, 0
 	for _, l := range letters {
 		if l.O == oPinParked {
@@ -1008,6 +1014,14 @@ func TestLocalSingles(t *testing.T) {
 	explore(t, "local-singles", 1, "full", quickFilters(), "vector", 60*time.Second)
 	// every union of statuses on the representative facts
 	explore(t, "local-singles-every-union", 1, "reduced", everyFilter(), "vector", 60*time.Second)
+}
+
+// The single-CID table once more with daemon failures surfacing as
+// context.Canceled (the connector gave up; the operation was not cancelled).
+func TestLocalSinglesConnectorGaveUp(t *testing.T) {
+	failAs = context.Canceled
+	defer func() { failAs = nil }()
+	explore(t, "local-singles(failures=connector-gave-up)", 1, "full", quickFilters(), "vector", within(60*time.Second))
 }
 
 func TestLocalPairs(t *testing.T) {
